@@ -19,9 +19,10 @@ N == Len(Trace)
 
 VARIABLES l,      \* next trace line
           cs,     \* state of the case being validated
-          res     \* results of finished cases: id -> [sha, clean, out, sb, locB, stmts, org]
+          res,    \* results of finished cases: id -> [sha, clean, out, sb, locB, stmts, org]
+          refs    \* reference results (C10): program index -> [sha, clean, status]
 
-vars == <<l, cs, res>>
+vars == <<l, cs, res, refs>>
 
 NoCase == [id |-> -1]
 EmptyFn == [x \in {} |-> 0]
@@ -44,8 +45,8 @@ T_Begin ==
             locB |-> [j \in 1..n |-> 0], psz |-> [j \in 1..n |-> 0], bitsS |-> [j \in 1..n |-> 16],
             ocB |-> [j \in 1..n |-> 0], ocA |-> [j \in 1..n |-> 0], dg |-> {},
             sb |-> [j \in 1..n |-> << >>], soff |-> [j \in 1..n |-> -1], cgbits |-> [j \in 1..n |-> 0],
-            org |-> 0, bits |-> 16, seen |-> 0, judged |-> 0, unjudged |-> 0]
-  /\ l' = l + 1 /\ UNCHANGED res
+            org |-> 0, bits |-> 16, seen |-> 0, judged |-> 0, unjudged |-> 0, nt |-> e.nt]
+  /\ l' = l + 1 /\ UNCHANGED <<res, refs>>
 
 (***************************************************************************)
 (* p1: one top-level statement was processed by pass 1                     *)
@@ -109,7 +110,7 @@ T_P1 ==
                          !.dg = IF DiagBad(e.diag) THEN @ \cup {i} ELSE @,
                          !.org = IF cs.stmts[i].k = "org" THEN e.dolA ELSE @,
                          !.bits = IF cs.stmts[i].k = "bits" THEN cs.stmts[i].v ELSE @]
-  /\ l' = l + 1 /\ UNCHANGED res
+  /\ l' = l + 1 /\ UNCHANGED <<res, refs>>
 
 (***************************************************************************)
 (* cg: one ocode was turned into bytes                                     *)
@@ -185,7 +186,7 @@ T_CG ==
      /\ cs' = [cs EXCEPT !.k = e.k + 1, !.sb[i] = nb, !.soff[i] = off, !.cgbits[i] = e.bits, !.dg = dg2,
                          !.judged = IF judge /\ (cs.stmts[i].k # "ins" \/ Judged(cs.stmts[i])) THEN @ + 1 ELSE @,
                          !.unjudged = IF judge /\ cs.stmts[i].k = "ins" /\ ~Judged(cs.stmts[i]) THEN @ + 1 ELSE @]
-  /\ l' = l + 1 /\ UNCHANGED res
+  /\ l' = l + 1 /\ UNCHANGED <<res, refs>>
 
 (***************************************************************************)
 (* end: whole-program layout (labels vs real offsets, branch landing)      *)
@@ -232,7 +233,7 @@ JudgeEnd(c, e) ==
       silent == {Mk(j, <<"C07">>, "statement contributed no bytes and no diagnostic", << >>)
                  : j \in {x \in 1..n : EmitsBytes(c.stmts[x]) /\ x \notin c.dg /\ c.sb[x] = << >> /\ c.ocA[x] > c.ocB[x]}}
   IN
-  IF e.status # "ok" THEN {}
+  IF e.status # "ok" \/ c.nt THEN {}        \* (nt: run recorded without hooks, only its result is used)
   ELSE hook \cup cnt \cup
        (IF e.clean /\ c.dg = {}
         THEN (IF \A j \in 1..n : Len(c.sb[j]) = c.psz[j] \/ c.stmts[j].k = "org" THEN labrej \cup total ELSE {})
@@ -248,18 +249,22 @@ T_End ==
                                 out |-> IF "out" \in DOMAIN e THEN e.out ELSE << >>, outlen |-> e.outlen,
                                 sb |-> cs.sb, stmts |-> cs.stmts, org |-> cs.org, sym |-> cs.sym])
   /\ cs' = NoCase
-  /\ l' = l + 1
+  /\ l' = l + 1 /\ UNCHANGED refs
 
 (***************************************************************************)
 (* rel: relations between finished cases                                   *)
 (***************************************************************************)
 JudgeRel(e) ==
   LET Mk(why, obs) == [id |-> e.a, i |-> 0, at |-> "rel", tags |-> e.tags, why |-> why, sk |-> e.kind, op |-> "", bits |-> 0, obs |-> obs]
-      A == res[e.a]  B == res[e.b]
+      A == res[e.a]  B == IF "b" \in DOMAIN e THEN res[e.b] ELSE A
   IN
   CASE e.kind = "eq" ->      \* same source meaning => identical result
          IF A.status # B.status \/ A.clean # B.clean THEN {Mk("outcome class differs", <<e.a, e.b>>)}
          ELSE IF A.status = "ok" /\ A.sha # B.sha THEN {Mk("outputs differ", <<e.a, e.b>>)} ELSE {}
+    [] e.kind = "ref" ->     \* C10: the result of this call equals the fresh-process reference of its program
+         LET X == refs[e.p] IN
+         IF A.status # X.status \/ A.clean # X.clean THEN {Mk("outcome class differs from the fresh-process reference", <<e.a, e.p>>)}
+         ELSE IF A.status = "ok" /\ A.sha # X.sha THEN {Mk("output differs from the fresh-process reference", <<e.a, e.p>>)} ELSE {}
     [] e.kind = "cat" ->     \* out(A;B) = out(A) \o out(B)
          LET AB == res[e.ab] IN
          IF ~(A.clean /\ B.clean) THEN {}
@@ -278,14 +283,18 @@ JudgeRel(e) ==
 T_Rel ==
   /\ IsEvent("rel")
   /\ Report(JudgeRel(Trace[l]))
-  /\ l' = l + 1 /\ UNCHANGED <<cs, res>>
+  /\ l' = l + 1 /\ UNCHANGED <<cs, res, refs>>
+
+\* reference result of program p, taken from a fresh process (C10)
+T_Ref == /\ IsEvent("ref") /\ refs' = Put(refs, Trace[l].p, [sha |-> Trace[l].sha, clean |-> Trace[l].clean, status |-> Trace[l].status])
+         /\ l' = l + 1 /\ UNCHANGED <<cs, res>>
 
 \* release memory of finished cases
-T_Flush == /\ IsEvent("flush") /\ res' = EmptyFn /\ l' = l + 1 /\ UNCHANGED cs
+T_Flush == /\ IsEvent("flush") /\ res' = EmptyFn /\ l' = l + 1 /\ UNCHANGED <<cs, refs>>
 
-Done == l = N + 1 /\ PrintT("TRACE-CONSUMED") /\ l' = N + 2 /\ UNCHANGED <<cs, res>>
+Done == l = N + 1 /\ PrintT("TRACE-CONSUMED") /\ l' = N + 2 /\ UNCHANGED <<cs, res, refs>>
 
-Init == l = 1 /\ cs = NoCase /\ res = EmptyFn
-Next == T_Begin \/ T_P1 \/ T_CG \/ T_End \/ T_Rel \/ T_Flush \/ Done
+Init == l = 1 /\ cs = NoCase /\ res = EmptyFn /\ refs = EmptyFn
+Next == T_Begin \/ T_P1 \/ T_CG \/ T_End \/ T_Rel \/ T_Ref \/ T_Flush \/ Done
 Spec == Init /\ [][Next]_vars
 =============================================================================
